@@ -140,6 +140,8 @@ var (
 func getTimezone(offset int) *time.Location {
 	tzLock.Lock()
 	defer tzLock.Unlock()
+	verifPoint("tz.w.enter")
+	defer verifPoint("tz.w.leave")
 	tz, ok := tzMap[offset]
 	if !ok {
 		tz = time.FixedZone("", offset)
